@@ -49,6 +49,21 @@ def source_audit(pid):
     return sorted(set(hits))
 
 
+def import_closure(root):
+    """project modules (Props / Proofs / SynapModel) that `root` imports, transitively, root included"""
+    seen, todo = [], [root]
+    while todo:
+        m = todo.pop()
+        if m in seen: continue
+        path = os.path.join(LEAN_DIR, *m.split('.')) + '.lean'
+        if not os.path.exists(path): continue
+        seen.append(m)
+        for line in open(path):
+            mm = re.match(r'\s*import\s+((?:Props|Proofs|SynapModel)\S*)', line)
+            if mm: todo.append(mm.group(1))
+    return sorted(seen)
+
+
 def axiom_audit(pid):
     """run `#audit_ns Props.Cxx`; returns (theorems, bad) where theorems = [(name, [axioms])]"""
     path = os.path.join(LEAN_DIR, 'Audit', f'{pid}.lean')
@@ -136,6 +151,14 @@ def run_check(pid, tier, seed):
         hits = source_audit(pid)
         for h in hits:
             broken.append({'kind': 'proof', 'what': f'forbidden construct in Lean sources: {h}'})
+        if tier == 'thorough' and os.environ.get('VERIF_LEANCHECKER', '1') != '0':
+            # independent re-check of the compiled modules this property depends on (Props.Cxx and every project module it imports)
+            mods = import_closure(f'Props.{pid}')
+            p = subprocess.run(['lake', 'env', 'leanchecker'] + mods, cwd=LEAN_DIR, capture_output=True, text=True)
+            if p.returncode != 0:
+                broken.append({'kind': 'proof', 'what': 'leanchecker rejected a compiled module', 'detail': (p.stdout + p.stderr)[-800:]})
+            else:
+                notes.append(f'leanchecker re-checked {len(mods)} compiled modules: ok')
     required = set(getattr(mod, 'REQUIRED_THEOREMS', []))
     have = {n for n, _ in thms}
     for r in sorted(required - have):
